@@ -361,11 +361,11 @@ static void case_vsh_component_reject(Rng& rng, uint64_t index)
 
 static void setup()
 {
-	add_generator("dawson_erfi", ctx().count(120000, 2400000), case_dawson);
-	add_generator("inv_erf", ctx().count(100000, 2000000), case_inverf);
-	add_generator("round", ctx().count(600000, 12000000), case_round);
-	add_generator("sign_step_reldiff_floats_equal", ctx().count(200000, 4000000), case_simple);
-	add_generator("vector_spherical_harmonics", 169 * ctx().count(100, 400), case_vsh);
-	add_generator("vsh_component_out_of_range", ctx().count(32, 64), case_vsh_component_reject);
+	add_generator("dawson_erfi", ctx().count(120000, 19200000), case_dawson);
+	add_generator("inv_erf", ctx().count(100000, 16000000), case_inverf);
+	add_generator("round", ctx().count(600000, 96000000), case_round);
+	add_generator("sign_step_reldiff_floats_equal", ctx().count(200000, 32000000), case_simple);
+	add_generator("vector_spherical_harmonics", 169 * ctx().count(100, 3200), case_vsh);
+	add_generator("vsh_component_out_of_range", ctx().count(32, 512), case_vsh_component_reject);
 }
 VERIF_MAIN("C17", setup)
